@@ -92,6 +92,66 @@ def run_backoff(job):
             "violations": viols, "outcomes": [], "sample": sample}
 
 
+LP_OUTCOMES = ("events", "quiet", "exc", "exc-late")
+
+
+def run_lp_backoff(job):
+    """the long-poll service obeys the same backoff law: every outcome sequence of the provider's long_poll callable
+    (returns True / returns False / raises at once / raises after the long-poll timeout has gone by)"""
+    install_shims()
+    n = 0
+    vs = {}
+    sample = None
+    for L in range(1, job["len"] + 1):
+        for seq in itertools.product(LP_OUTCOMES, repeat=L):
+            if seq[0] != job["first"]:
+                continue
+            n += 1
+            starts, ends = [], []
+            state = {"i": 0}
+
+            def long_poll(timeout):
+                starts.append(thrx.CUR.now)
+                o = seq[state["i"]] if state["i"] < len(seq) else "events"
+                state["i"] += 1
+                if o == "exc-late":
+                    LP.time.sleep(timeout + 5)
+                ends.append(thrx.CUR.now)
+                if o in ("exc", "exc-late"):
+                    raise KeyError("provider long poll failed")
+                return o == "events"
+            box = {}
+
+            def loop():
+                box["lp"] = lp_ = LP.LongPollManager(lambda: iter(()), long_poll, uses_cursor=False)
+                lp_.run(until=lambda: state["i"] > len(seq), sleep=IDLE)
+            s = thrx.Sched()
+            s.spawn("loop", loop)
+            s.run()
+            lp = box.get("lp")
+            if s.threads[0].exc is not None or len(starts) != len(seq) + 1:
+                vs.setdefault(("loop-died", seq[min(len(starts), len(seq)) - 1]),
+                              {"seq": list(seq), "calls": len(starts), "exc": repr(s.threads[0].exc)})
+                continue
+            k = 0
+            for i, o in enumerate(seq):
+                k = k + 1 if o in ("exc", "exc-late") else 0
+                want = IDLE if k == 0 else min(lp.max_backoff, lp.min_backoff * (lp.mult_backoff ** (k - 1)))
+                got = starts[i + 1] - ends[i]
+                if abs(got - want) > 1e-9:
+                    vs.setdefault(("longpoll-backoff-wait", "%s:k=%d" % (o, k)),
+                                  {"seq": list(seq), "after_call": i, "waited": got, "expected": want})
+                    break
+            sample = {"seq": list(seq), "waits": [round(starts[i + 1] - ends[i], 4) for i in range(len(seq))]}
+    viols = []
+    for key, d in vs.items():
+        v = viol(key[0], key[1], d)
+        v["hist"] = d["seq"]
+        viols.append(v)
+    return {"states": n, "transitions": n, "evaluations": n, "traces": n, "nontrivial": n, "terminals": 0, "capped": False,
+            "violations": viols, "outcomes": [], "sample": sample}
+
+
 # ------------------------------------------------------------------------------------------------ stop/start/wake races
 def scenario(name, sched, log):
     """returns (list of (thread name, fn)), finish() -> violations"""
@@ -323,6 +383,8 @@ def run_races(job):
 def run_job(job):
     if job["kind"] == "backoff":
         return run_backoff(job)
+    if job["kind"] == "lp-backoff":
+        return run_lp_backoff(job)
     r = run_races(job)
     # the known finding identity must not depend on how the work was split over workers
     r["job"] = {"kind": "race", "scenario": job["scenario"]}
@@ -335,6 +397,8 @@ def jobs(tier):
     for p in PARAMS:
         for f in OUTCOMES:
             out.append({"kind": "backoff", "params": list(p), "len": L, "first": f})
+    for f in LP_OUTCOMES:
+        out.append({"kind": "lp-backoff", "len": L, "first": f})
     bound = 2 if tier == "quick" else 3
     install_shims()
     for name in ALL:
@@ -343,7 +407,7 @@ def jobs(tier):
         out.append({"kind": "race", "scenario": name, "bound": 0, "prefix": [], "weight": 1})
         for kpre in kids:
             out.append({"kind": "race", "scenario": name, "bound": b, "prefix": kpre, "weight": 5,
-                        "max_execs": 6000 if tier == "quick" else 60000, "budget_s": 40 if tier == "quick" else 600})
+                        "max_execs": 6000 if tier == "quick" else 40000, "budget_s": 40 if tier == "quick" else 200})
     return out
 
 
@@ -371,8 +435,8 @@ def main(tier):
 def replay(path):
     d = json.load(open(path))
     job = d["job"]
-    if job.get("kind") == "backoff":
-        r = run_backoff(job)
+    if job.get("kind") in ("backoff", "lp-backoff"):
+        r = run_backoff(job) if job["kind"] == "backoff" else run_lp_backoff(job)
         print(json.dumps(r["violations"], indent=1, default=repr))
         return 1 if r["violations"] else 0
     s, obs, vs = run_one(job["scenario"], d.get("hist") or [])
